@@ -179,6 +179,7 @@ def check(facts, rep, tier, cfg):
     import whomay
     whomay.check(facts, rep, "C11.S7", "C11")
     whomay.check_new_statics(facts, rep, "C11.S7", "C11")
+    whomay.check_new_trait_methods(facts, rep, "C11.S7", "C11")
 
 
 _RECV_ONE = {"recv", "poll_recv", "try_recv", "blocking_recv"}
